@@ -1,5 +1,5 @@
 """C07 - note data text decodes to exactly one correctly placed note per non-zero cell (structural clauses)."""
-from ..rules import notes, records, baseline
+from ..rules import notes, records, baseline, state
 
 EXPLANATION = (
     "Static rule checking of the note decoder: R-CMP all four rich comparisons of the public record Note are defined in its body "
@@ -34,6 +34,10 @@ def c4(ctx):
     notes.notetype_table(ctx)
 
 
+def c_state(ctx):
+    state.shared_state(ctx, ['simfile.notes:NoteData.__iter__', 'simfile.notes:NoteData.from_notes', 'simfile.notes:NoteData.__init__', 'simfile.timing:Beat.__new__'], 'the notes read from a text depend on that text only')
+
+
 def c_api(ctx):
     baseline.surface(ctx, "C07: documented surface", modules=['simfile.notes'])
 
@@ -41,5 +45,6 @@ CLAUSES = [
     ("C07.1", "every comparison operator of Note agrees with the position order (R-CMP)", c1),
     ("C07.2-3", "beat formula (R-POLY); one note per non-zero cell with the cell's fields", c2),
     ("C07.4-5", "text kept verbatim; NoteType table", c4),
+    ("C07.state", "no process-wide state (module-level caches, memoised constructors) behind the note reader (R-STATE)", c_state),
     ("C07.api", "public surface: signatures and defaults, constants, enumerations, blank templates, base classes as confirmed (R-API)", c_api),
 ]
